@@ -32,6 +32,7 @@ Flags(L) ==
     [] L = "java"       -> {"generate_json_marshaller", "skip_runtime"}
     [] L = "typescript" -> {"skip_runtime", "enums_as_union_types"}
     [] L = "php"        -> {"generate_json_marshaller"}
+    [] L \in SchemaLangs -> {"compact"}          \* not named by the property, but an output option of these two (audit class 11)
     [] OTHER            -> {}
 
 Configs(L) == [lang : {L}, out : SUBSET OutputKinds, on : SUBSET Flags(L)]
